@@ -554,6 +554,7 @@ func TestC38(t *testing.T) {
 		out.Extra["skipped"] = "ssh-keygen not installed: fingerprints and ssh-keygen-written keys not compared"
 	}
 	replay(t, out, keys)
+	boundaryKeys(t, out, haveKeygen)
 	roundTrips(t, out, haveKeygen)
 	var seeds [][]byte
 	if haveKeygen {
